@@ -20,7 +20,7 @@ cp "$cache" "$scratch/base.txt"; suite "$scratch/repo" > "$scratch/mut.txt"
 if diff -q "$scratch/base.txt" "$scratch/mut.txt" >/dev/null; then echo "CONFIRM: test suite verdicts identical to the unchanged tree ($(grep -c '^ok' $scratch/mut.txt) packages ok)"; else echo "CONFIRM: TEST SUITE DIFFERS"; diff "$scratch/base.txt" "$scratch/mut.txt"; fi
 rundemo() { # $1 = repo dir
   rm -rf "$scratch/demo"; cp -r "$seed/demo" "$scratch/demo"
-  (cd "$scratch/demo" && sed -i -E "s#=> /tmp/wt2?-[a-z0-9]+#=> $1#" go.mod && cp "$1/go.sum" go.sum 2>/dev/null; grep -rlE "/tmp/wt2?-" . 2>/dev/null | xargs -r sed -i -E "s#/tmp/wt2?-[a-z0-9]+#$1#g"; go test -count=1 -tags verif ./... 2>&1 | tail -15)
+  (cd "$scratch/demo" && sed -i -E "s#=> /tmp/wt[23]?-[a-z0-9]+#=> $1#" go.mod && cp "$1/go.sum" go.sum 2>/dev/null; grep -rlE "/tmp/wt[23]?-" . 2>/dev/null | xargs -r sed -i -E "s#/tmp/wt[23]?-[a-z0-9]+#$1#g"; go test -count=1 -tags verif ./... 2>&1 | tail -15)
 }
 echo "--- demo WITH the change:"; rundemo "$scratch/repo" | grep -E "^(ok|FAIL|--- FAIL|panic)" | head -8
 echo "--- demo WITHOUT the change:"; rundemo /repo | grep -E "^(ok|FAIL|--- FAIL|panic)" | head -8
